@@ -9,10 +9,56 @@ _DYN_DEFS = ('__getattr__', '__getattribute__', '__setattr__', '__delattr__', '_
              '__class_getitem__')
 
 
+def _literal_strings(e):
+    """True when the expression is a literal whose iteration yields only string constants (a string, or a tuple / list of
+    string constants)"""
+    if isinstance(e, ast.Constant) and isinstance(e.value, str):
+        return True
+    if isinstance(e, (ast.Tuple, ast.List)):
+        return bool(e.elts) and all(isinstance(x, ast.Constant) and isinstance(x.value, str) for x in e.elts)
+    return False
+
+
+def static_attribute_names(tree):
+    """ids of the setattr/getattr calls whose attribute name is statically known: a string literal, or a loop variable of a
+    `for` over a literal collection of strings (directly, or through zip(...) of such literals, position by position).  Such a
+    call is an ordinary attribute access that the interpreter executes; only *computed* names defeat the attribute model."""
+    ok = set()
+    for fn in ast.walk(tree):
+        if not isinstance(fn, (ast.FunctionDef, ast.AsyncFunctionDef)):
+            continue
+        literal_vars = set()
+        stores = {}
+        for n in ast.walk(fn):
+            if isinstance(n, ast.Name) and isinstance(n.ctx, ast.Store):
+                stores[n.id] = stores.get(n.id, 0) + 1
+        for n in ast.walk(fn):
+            if not isinstance(n, ast.For):
+                continue
+            it, tg = n.iter, n.target
+            if isinstance(tg, ast.Name) and _literal_strings(it):
+                literal_vars.add(tg.id)
+            elif isinstance(it, ast.Call) and isinstance(it.func, ast.Name) and it.func.id == 'zip' and not it.keywords and \
+                    isinstance(tg, ast.Tuple) and len(tg.elts) == len(it.args):
+                for t_, a_ in zip(tg.elts, it.args):
+                    if isinstance(t_, ast.Name) and _literal_strings(a_):
+                        literal_vars.add(t_.id)
+        literal_vars = {v for v in literal_vars if stores.get(v, 0) == 1}      # bound by that loop only
+        for n in ast.walk(fn):
+            if isinstance(n, ast.Call) and isinstance(n.func, ast.Name) and n.func.id in ('setattr', 'getattr', 'hasattr') and len(n.args) >= 2:
+                nm = n.args[1]
+                if (isinstance(nm, ast.Constant) and isinstance(nm.value, str)) or (isinstance(nm, ast.Name) and nm.id in literal_vars):
+                    ok.add(id(n))
+    return ok
+
+
 def dynamic_constructs(tree):
     out = []
+    static_ok = static_attribute_names(tree)
     for n in ast.walk(tree):
         if isinstance(n, ast.Call) and isinstance(n.func, ast.Name) and n.func.id in _DYN_CALLS:
+            if id(n) in static_ok:
+                continue
             out.append((n.lineno, 'call of %s' % n.func.id))
         elif isinstance(n, ast.FunctionDef) and n.name in _DYN_DEFS:
             out.append((n.lineno, 'definition of %s' % n.name))
